@@ -1,13 +1,13 @@
 SPECIFICATION Spec
 CONSTANTS
   Threads = {1, 2, 3}
-  Prog <- ProgList2
-  HashOf <- HashSame
-  InitKeys <- Init0
+  Prog <- ProgClr1
+  HashOf <- HashId
+  InitKeys <- Init1
   N0 = 2
   DCAP = 2
-  MaxNodes = 6
-  MaxTabs = 1
+  MaxNodes = 10
+  MaxTabs = 2
   STRIDE = 1
   MAXRES = 100
   STAMPCHECK = TRUE
